@@ -35,7 +35,7 @@ def run_mutant(meta, repo='/repo', keep=False, verbose=False, slot=0):
                 shutil.copytree(s, d)
             else:
                 shutil.copy(s, d)
-        patch = os.path.join(ROOT, 'mutants', meta['patch'])
+        patch = meta.get('_patch_path') or os.path.join(ROOT, 'mutants', meta['patch'])
         p = subprocess.run(['patch', '-p1', '--no-backup-if-mismatch', '-s', '-f', '-i', patch], cwd=scratch, stdout=subprocess.PIPE, stderr=subprocess.STDOUT, text=True)
         if p.returncode != 0:
             return 'skipped', 'patch does not apply: ' + p.stdout.strip()[:200]
@@ -58,6 +58,23 @@ def run_mutant(meta, repo='/repo', keep=False, verbose=False, slot=0):
     finally:
         if not keep:
             shutil.rmtree(tmp, ignore_errors=True)
+
+
+def all_metas():
+    """the replayable patches: hand-written mutants (mutants/*.json) and the sub-agents' seeded changes that a check is
+    expected to catch (seeded/<id>/meta.json with an "expect" entry: the property whose check fires and a part of the key)"""
+    metas = []
+    for f in sorted(glob.glob(os.path.join(ROOT, 'mutants', '*.json'))):
+        m = json.load(open(f))
+        m['_name'] = os.path.basename(f)[:-5]
+        metas.append(m)
+    for f in sorted(glob.glob(os.path.join(ROOT, 'seeded', '*', 'meta.json'))):
+        s = json.load(open(f))
+        for i, ex in enumerate(s.get('expect') or []):
+            metas.append({'_name': 'seeded_%s%s' % (os.path.basename(os.path.dirname(f)), '' if i == 0 else '_%d' % i),
+                          '_patch_path': os.path.join(os.path.dirname(f), 'patch.diff'), 'property': ex['property'],
+                          'expect_key_contains': ex['key_contains'], 'why': 'seeded by an independent sub-agent: ' + s.get('change', '')})
+    return metas
 
 
 def default_jobs():
@@ -100,15 +117,7 @@ def main(argv):
         only = argv[argv.index('--only') + 1]
     verbose = '-v' in argv
     jobs = int(argv[argv.index('-j') + 1]) if '-j' in argv else default_jobs()
-    metas = []
-    for f in sorted(glob.glob(os.path.join(ROOT, 'mutants', '*.json'))):
-        m = json.load(open(f))
-        m['_name'] = os.path.basename(f)[:-5]
-        if prop and m['property'] != prop:
-            continue
-        if only and only not in m['_name']:
-            continue
-        metas.append(m)
+    metas = [m for m in all_metas() if (not prop or m['property'] == prop) and (not only or only in m['_name'])]
     bad = 0
     res = []
     for name, st, info in run_many(metas, jobs=jobs, verbose=verbose):
